@@ -332,7 +332,7 @@ fn parse_into(text: &str, path: &str, include_dir: &str, unit: &mut Unit) -> Res
                                 .map_err(|_| format!("{}: bad #n", origin))?;
                             place = place[..i].to_string();
                         }
-                        if !matches!(place.as_str(), "before" | "after" | "replace" | "start" | "end" | "tail" | "lowered-before" | "lowered-after" | "ret") {
+                        if !matches!(place.as_str(), "before" | "after" | "replace" | "start" | "end" | "tail" | "exits" | "lowered-before" | "lowered-after" | "ret") {
                             return Err(format!("{}: bad splice place `{}`", origin, place));
                         }
                         let (contains, rest) = match rest.strip_prefix('~') {
